@@ -240,7 +240,7 @@ def analyse(program, log, verdict, thread_errors=()):
                 if to is None:
                     v.append(Violation("C16", "result", "timeout-without-timeout", "result() raised OSError without a timeout"))
                 else:
-                    if o["t1"] - o["t0"] != to:
+                    if o["t1"] - o["t0"] < to or o["t1"] - o["t0"] > to + 1.0:  # never early; a second of slack for polling implementations
                         v.append(Violation("C16", "result", "timeout-wrong-time",
                                            "result(%r) raised OSError after %r virtual seconds" % (to, o["t1"] - o["t0"])))
                     if o["call"] > T1:
